@@ -79,7 +79,53 @@ def sniff_dist(rs):
         d["zero_cap_reads"] += ";" in t and "0" in t[t.index(";"):]
     return d
 
+def eb_nontrivial(r):
+    t = r["input"].split()
+    return t[1] == "set" and (len(t) - 5) // 2 >= 2
+
+def eb_dist(rs):
+    d = {"n0": 0, "n1": 0, "n2": 0, "n3+": 0, "ok": 0, "err": 0, "timeout": 0, "noprogress": 0, "hang": 0,
+         "delay_none": 0, "delay_zero": 0, "timeout_none": 0, "timeout_zero": 0, "conc_none": 0, "conc_zero": 0,
+         "never_completing_attempt": 0, "tcpdelay": 0, "not_all_started": 0}
+    for r in rs:
+        t = r["input"].split()
+        if t[1] != "set":
+            d["tcpdelay"] += 1
+            continue
+        n = (len(t) - 5) // 2
+        d["n0" if n == 0 else "n1" if n == 1 else "n2" if n == 2 else "n3+"] += 1
+        o = r["obs"].split()
+        d[o[0]] = d.get(o[0], 0) + 1
+        d["delay_none"] += t[2] == "-"; d["delay_zero"] += t[2] == "0"
+        d["timeout_none"] += t[3] == "-"; d["timeout_zero"] += t[3] == "0"
+        d["conc_none"] += t[4] == "-"; d["conc_zero"] += t[4] == "0"
+        d["never_completing_attempt"] += "-" in t[5::2]
+        d["not_all_started"] += (len(o) - 3) // 2 < n
+    return d
+
+EB_STREAMS = [{"name": "eb", "quick": 6000, "thorough": 200000, "head": 5, "unit": 2, "exhaustive": "eb-exhaustive",
+               "nontrivial": eb_nontrivial, "distribution": eb_dist}]
+EB_RULE = ("scripted attempts (n<=5; latency none/0/grid, outcome ok/err) x stagger delay {none,0,..50} x overall timeout {none,0,..200} "
+           "x initial concurrency {none,0..n+1} on the real EyeballSet under tokio's paused clock; thorough adds the full grid n<=3 "
+           "(65184 cases, exhaustive over that grid); plus the TcpConnecting delay glue via its trace event; non-trivial = n>=2")
+EB_ASSUMES = ["tokio timer semantics under the paused clock (inner future polled before the timer; timers fire at their deadline)",
+              "FuturesUnordered polls newly pushed futures in push order and returns the first ready one",
+              "two attempts due at the same instant may complete in either order (compared by specification only)"]
+
 PROPS = {
+    "C10": {
+        "props_module": "HdModel.Props.C10",
+        "class_prefix": ["C10/"],
+        "theorems": ["Hd.Eyeballs.C10_no_candidates"],
+        "streams": EB_STREAMS, "rule": EB_RULE, "assumes": EB_ASSUMES,
+    },
+    "C11": {
+        "props_module": "HdModel.Props.C11",
+        "class_prefix": ["C11/"],
+        "theorems": ["Hd.Eyeballs.C11_order_once", "Hd.Eyeballs.C11_deadline", "Hd.Eyeballs.C11_starts_before_finish",
+                     "Hd.Eyeballs.loop_inv1"],
+        "streams": EB_STREAMS, "rule": EB_RULE, "assumes": EB_ASSUMES,
+    },
     "C08": {
         "props_module": "HdModel.Props.C08",
         "theorems": ["Hd.Sniff.C08_detect", "Hd.Sniff.C08_transparent", "Hd.Sniff.C08_run_spec",
